@@ -177,7 +177,7 @@ redis:
 	cmd.Dir = dir
 	cmd.Env = append(os.Environ(),
 		fmt.Sprintf("VERIF_BUFCAP=%d", cfg.BufCap), fmt.Sprintf("VERIF_SNDBUF=%d", cfg.SndBuf), fmt.Sprintf("VERIF_RCVBUF=%d", cfg.RcvBuf),
-		"GOMAXPROCS=4", "GOTRACEBACK=single")
+		"GOMAXPROCS=2", "GOTRACEBACK=single")
 	cmd.SysProcAttr = &syscall.SysProcAttr{Pdeathsig: syscall.SIGKILL}
 	p := &Proxy{Cfg: cfg, Port: port, Dir: dir, cmd: cmd, exited: make(chan struct{})}
 	cmd.Stdout = nil
